@@ -59,7 +59,7 @@ MIN_LABELS = {
 
 def strategy(tier: str, pid: str = "C01") -> st.SearchStrategy[Any]:
     del pid
-    max_groups = 4 if tier == "quick" else 6
+    max_groups = 5 if tier == "quick" else 7
     return st.fixed_dictionaries({
         "groups": batsys.groups(max_groups=max_groups),
         "exp": st.one_of(st.sampled_from([0.0, 0.5, 1.0, 1.0, 2.0, 3.0]), st.floats(0.0, 4.0)),
